@@ -2,7 +2,7 @@
 import ast, types, enum, builtins, string as _string, itertools, collections
 import z3
 from .sym import *
-from .interp import (_site, Engine, PyRaise, _Return, _Break, _Continue, SObj, HList, HDict, Closure, BoundReal, Frame,
+from .interp import (Seg, has_seg, _site, Engine, PyRaise, _Return, _Break, _Continue, SObj, HList, HDict, Closure, BoundReal, Frame,
                      GuardedItem)
 
 
@@ -148,9 +148,77 @@ def e_UnaryOp(self, n):
     raise Unsupported("unary op")
 
 
+class YSet:
+    """small set whose elements may be symbolic: a list of (presence condition, element).  Supports emptiness, membership, & | -;
+    iteration is refused (element multiplicity is not decided)."""
+    def __init__(self, items):
+        self.items = [(c, x) for c, x in items if c is not False]
+
+    def __repr__(self):
+        return f"YSet({self.items})"
+
+    def __bool__(self):
+        if not self.items:
+            return False
+        if any(c is True for c, _ in self.items):
+            return True
+        raise Unsupported("native truth value of a set with symbolic membership")
+
+    @staticmethod
+    def of(v):
+        if isinstance(v, YSet):
+            return v
+        if isinstance(v, (set, frozenset, list, tuple)):
+            return YSet([(True, x) for x in v])
+        if isinstance(v, HList):
+            return YSet([(True, x) for x in v.items])
+        raise Unsupported(f"not a small set: {v!r}")
+
+
+def _elem_eq(self, a, b):
+    a, b = norm_str(a), norm_str(b)
+    if isinstance(a, Seg) or isinstance(b, Seg):
+        # "does element x occur in the arbitrary segment": open, unless the kinds exclude it
+        if isinstance(b, Seg) and not isinstance(a, Seg):
+            a, b = b, a
+        if a.elem == "str" and not isinstance(b, Seg) and not is_strlike(b):
+            return False
+        if isinstance(b, Seg) and a.elem != b.elem and a.elem is not None and b.elem is not None:
+            return False
+        return self.fresh("seg_member", "bool")
+    if not is_symbolic(a) and not is_symbolic(b):
+        return a == b if not isinstance(a, (SObj, HList, HDict)) and not isinstance(b, (SObj, HList, HDict)) else a is b
+    if is_strlike(a) != is_strlike(b):
+        return False            # a string never equals a non-string (Else / End sentinels, objects)
+    return self.compare(ast.Eq(), a, b)
+
+
+@E
+def yset_member(self, x, ys):
+    return zor(*[zand(c, _elem_eq(self, x, y)) for c, y in ys.items])
+
+
+@E
+def yset_binop(self, op, a, b):
+    a, b = YSet.of(a), YSet.of(b)
+    if isinstance(op, ast.BitAnd):
+        return YSet([(zand(c, self.yset_member(x, b)), x) for c, x in a.items])
+    if isinstance(op, ast.BitOr):
+        return YSet(a.items + b.items)
+    if isinstance(op, ast.Sub):
+        return YSet([(zand(c, znot(self.yset_member(x, b))), x) for c, x in a.items])
+    raise Unsupported("set binop on sets with symbolic elements")
+
+
 @E
 def truthy(self, v):
+    if isinstance(v, YSet):
+        return zor(*[c for c, _ in v.items])
     if isinstance(v, HList):
+        if has_seg(v.items):
+            if any(not isinstance(x, Seg) for x in v.items):
+                return True
+            return zor(*[x.length > 0 for x in v.items])
         return len(v.items) > 0
     if isinstance(v, HDict):
         if any(p is not True for p in v.present.values()):
@@ -166,7 +234,7 @@ _to_bool_orig = to_bool
 
 @E
 def cond(self, v):
-    if isinstance(v, (HList, HDict, SObj)):
+    if isinstance(v, (HList, HDict, SObj, YSet)):
         return self.truthy(v)
     return to_bool(v)
 
@@ -184,10 +252,12 @@ def binop(self, op, a, b):
         raise Unsupported("% string formatting")
     if isinstance(a, HList) or isinstance(b, HList):
         if isinstance(op, ast.Add):
-            return HList(self.iterate(a) + self.iterate(b))
+            return HList(self.iterate(a, concat=True) + self.iterate(b, concat=True))
         if isinstance(op, ast.Mult) and isinstance(b, int):
             return HList(self.iterate(a) * b)
         raise Unsupported("list binop")
+    if isinstance(a, YSet) or isinstance(b, YSet):
+        return self.yset_binop(op, a, b)
     if isinstance(a, SSet) or isinstance(b, SSet):
         return self.set_binop(op, a, b)
     if is_strlike(a) and is_strlike(b) and isinstance(op, ast.Add):
@@ -301,6 +371,16 @@ def compare(self, op, a, b):
             if isinstance(a, (str, int)) and isinstance(b, (str, int)) and type(a) == type(b):
                 r = a == b
         return r if isinstance(op, ast.Is) else (not r)
+    if isinstance(op, (ast.Eq, ast.NotEq)) and any(isinstance(x, (HList, tuple, list)) and has_seg(x.items if isinstance(x, HList) else x) for x in (a, b)):
+        ia = a.items if isinstance(a, HList) else a
+        ib = b.items if isinstance(b, HList) else b
+        if isinstance(ia, (list, tuple)) and isinstance(ib, (list, tuple)) and len(ia) == len(ib) and all(x is y for x, y in zip(ia, ib)):
+            r = True
+        elif not isinstance(ia, (list, tuple)) or not isinstance(ib, (list, tuple)):
+            r = False
+        else:
+            r = self.fresh("seg_eq", "bool")     # concatenations of arbitrary segments: equality left open (both outcomes are explored)
+        return r if isinstance(op, ast.Eq) else (znot(r) if is_z3(r) else (not r))
     if isinstance(op, (ast.In, ast.NotIn)):
         r = self.contains(b, a)
         return r if isinstance(op, ast.In) else (znot(r) if is_z3(r) else (not r))
@@ -410,6 +490,11 @@ def contains(self, container, item):
         return False
     if isinstance(container, HList):
         container = tuple(container.items)
+    if isinstance(container, YSet):
+        return self.yset_member(item, container)
+    if isinstance(container, tuple) and has_seg(container):
+        # membership in a concatenation with arbitrary segments: decided for the known elements, left open (fresh Boolean) per segment
+        return zor(*[_elem_eq(self, item, x) for x in container])
     if isinstance(container, SSet):
         if isinstance(item, str):
             return simp(z3.Extract(ord(item), ord(item), container.bv) == 1)
@@ -636,6 +721,8 @@ def get_slice(self, obj, lo, hi, step):
     if isinstance(obj, HList):
         if any(is_symbolic(x) for x in (lo, hi, step) if x is not None):
             raise Unsupported("symbolic list slice")
+        if has_seg(obj.items) and not (lo is None and hi is None and step is None):
+            raise Unsupported("slice of a list that holds an arbitrary segment")
         return HList(obj.items[lo:hi:step])
     if not is_symbolic(obj) and not any(is_symbolic(x) for x in (lo, hi, step) if x is not None):
         return obj[lo:hi:step]
@@ -669,6 +756,8 @@ def get_slice(self, obj, lo, hi, step):
 def get_item(self, obj, k):
     obj = norm_str(self.R(obj))
     k = norm_str(self.R(k))
+    if isinstance(obj, SObj) and self.find_method(obj.cls, "__getitem__"):
+        return self.call_method(obj, "__getitem__", [k], {})
     if isinstance(obj, HDict):
         if is_symbolic(k):
             return self.sym_dict_lookup(obj, k)
@@ -681,6 +770,8 @@ def get_item(self, obj, k):
         return obj.items[k]
     if isinstance(obj, HList):
         obj = obj.items
+    if isinstance(obj, (list, tuple)) and has_seg(obj):
+        raise Unsupported("indexing a list that holds an arbitrary segment")
     if isinstance(obj, (list, tuple)):
         if is_z3(k):
             return self.sym_seq_index(obj, k)
@@ -765,8 +856,12 @@ def sym_seq_index(self, seq, k):
 
 
 @E
-def iterate(self, v):
+def iterate(self, v, concat=False):
     v = norm_str(self.R(v))
+    if not concat and isinstance(v, (HList, _LazyIter)) and has_seg(v.items):
+        raise Unsupported("element-wise use of a list that holds an arbitrary segment")
+    if not concat and isinstance(v, (tuple, list)) and has_seg(v):
+        raise Unsupported("element-wise use of a tuple that holds an arbitrary segment")
     if isinstance(v, HList):
         return list(v.items)
     if isinstance(v, HDict):
@@ -791,6 +886,10 @@ def iterate(self, v):
         raise Unsupported("iteration over symbolic-length value (needs loop contract)")
     if isinstance(v, SSet):
         raise Unsupported("iteration over symbolic set")
+    if isinstance(v, YSet):
+        if all(c is True for c, _ in v.items) and not any(is_symbolic(x) for _, x in v.items):
+            return [x for _, x in v.items]
+        raise Unsupported("iteration over a set with symbolic elements or membership")
     if isinstance(v, (set, frozenset)):
         try:
             return sorted(v)
@@ -894,7 +993,7 @@ def e_Call(self, n):
     args = []
     for a in n.args:
         if isinstance(a, ast.Starred):
-            args.extend(self.iterate(self.eval(a.value)))
+            args.extend(self.iterate(self.eval(a.value), concat=True))
         else:
             args.append(self.eval(a))
     kwargs = {}
@@ -943,22 +1042,24 @@ def instantiate(self, cls, args, kwargs):
             obj.fields["args"] = tuple(args)
         return obj
     if cls in (list,):
-        return HList(self.iterate(args[0])) if args else HList()
+        return HList(self.iterate(args[0], concat=True)) if args else HList()
     if cls is dict:
         if args:
             raise Unsupported("dict(x)")
         return HDict(dict(kwargs))
     if cls is tuple:
-        return tuple(self.iterate(args[0])) if args else ()
+        return tuple(self.iterate(args[0], concat=True)) if args else ()
     if cls in (set, frozenset):
         if not args:
-            return cls()
+            return YSet([]) if (cls is set and getattr(self, "mutable_sets", False)) else cls()
         a = args[0]
         if isinstance(a, SSet):
             return a
-        items = self.iterate(a)
-        if any(is_symbolic(x) for x in items):
-            raise Unsupported("set of symbolic elements")
+        if isinstance(a, YSet):
+            return a
+        items = self.iterate(a, concat=True)       # a set of a concatenation is the union: segments may stay
+        if any(is_symbolic(x) or isinstance(x, Seg) for x in items):
+            return YSet([(True, x) for x in items])
         return cls(items)
     if cls is str:
         return self.to_str(args[0]) if args else ""
@@ -1064,6 +1165,24 @@ def call_closure(self, clo, args, kwargs):
     fr = Frame(q, env, clo.defenv)
     fr.gbase = len(self.gstack)
     fr.dead_at_entry = self.dead
+    if _is_generator(node):
+        # generator functions are evaluated EAGERLY: the yielded items are collected and handed over as a finite iterable.  Sound for
+        # generators without side effects whose source collection is not mutated while the caller iterates (nmfu: all_transitions,
+        # all_transitions_for); a yield under a symbolic guard is refused rather than approximated.
+        fr.yielded = []
+        self.frames.append(fr)
+        self.trace_calls.append(q)
+        try:
+            try:
+                self.exec_block(node.body)
+            except _Return:
+                pass
+            if fr.returns:
+                raise Unsupported(f"generator {q} with a guarded return")
+            return _LazyIter(fr.yielded)
+        finally:
+            self.frames.pop()
+            self.version += 1
     self.frames.append(fr)
     self.trace_calls.append(q)
     # guards of the caller keep applying; callee's own returned/loops start fresh
@@ -1100,6 +1219,43 @@ def call_closure(self, clo, args, kwargs):
     finally:
         self.frames.pop()
         self.version += 1
+
+
+def _is_generator(node):
+    todo = list(node.body)
+    while todo:
+        x = todo.pop()
+        if isinstance(x, (ast.Yield, ast.YieldFrom)):
+            return True
+        if isinstance(x, (ast.FunctionDef, ast.Lambda, ast.ClassDef)):
+            continue
+        todo.extend(ast.iter_child_nodes(x))
+    return False
+
+
+@E
+def e_Yield(self, n):
+    fr = self.frames[-1]
+    if not hasattr(fr, "yielded"):
+        raise Unsupported("yield outside a generator frame")
+    if self.guard() is not True:
+        raise NeedFork(self.sites(), "yield under a symbolic guard")
+    fr.yielded.append(self.eval(n.value) if n.value is not None else None)
+    return None
+
+
+@E
+def e_YieldFrom(self, n):
+    fr = self.frames[-1]
+    if not hasattr(fr, "yielded"):
+        raise Unsupported("yield from outside a generator frame")
+    if self.guard() is not True:
+        raise NeedFork(self.sites(), "yield from under a symbolic guard")
+    for it in self.iterate(self.eval(n.value)):
+        if isinstance(it, GuardedItem):
+            raise Unsupported("yield from over guarded items")
+        fr.yielded.append(it)
+    return None
 
 
 @E
